@@ -121,6 +121,19 @@ class FortranExpressionMapper(StringifyMapper):
     def map_power(self, expr, enclosing_prec, *args, **kwargs):
         return _map_power_right_assoc(self, expr, enclosing_prec, *args, **kwargs)
 
+    def map_comparison(self, expr, enclosing_prec, *args, **kwargs):
+        from pymbolic.mapper.stringifier import PREC_COMPARISON
+
+        # "!" starts a comment in Fortran.
+        operator = {"!=": "/="}.get(expr.operator, expr.operator)
+
+        return self.parenthesize_if_needed(
+                self.format("%s %s %s",
+                    self.rec(expr.left, PREC_COMPARISON, *args, **kwargs),
+                    operator,
+                    self.rec(expr.right, PREC_COMPARISON, *args, **kwargs)),
+                enclosing_prec, PREC_COMPARISON)
+
     def map_logical_not(self, expr, enclosing_prec):
         from pymbolic.mapper.stringifier import PREC_UNARY
         return self.parenthesize_if_needed(
